@@ -1514,6 +1514,34 @@ func (m *Monitors) c12cb(o *Op, res string, f *stepFacts, pre *Pre, s *Snap) {
 			}
 		}
 	}
+	// the response callback of a module context is invoked exactly once per batch, in the step that completes
+	// the batch (its last response, or the EndBlock of its expiry), whatever the state of the context then
+	if res == "ok" {
+		n := map[string]int{}
+		for _, c := range m.r.w.cbLog {
+			if c.kind == "r" {
+				n[string(c.ctxID)]++
+			}
+		}
+		for id, x := range ps.Ctxs {
+			if x.ModuleName == "" || x.BatchCounter == 0 {
+				continue
+			}
+			y, inPost := s.Ctxs[id]
+			completedNow := x.BatchState == types.BATCHRUNNING &&
+				(!inPost || y.BatchCounter != x.BatchCounter || y.BatchState == types.BATCHCOMPLETED)
+			want := 0
+			if completedNow {
+				want = 1
+			}
+			m.evals["C12.once"]++
+			if n[id] != want {
+				m.fail("C12", "%sresponse callback of module context %s invoked %d times in a %s step at height %d, expected %d (batch %d %s)",
+					m.tagCtx(id), ctxLine([]byte(id)), n[id], o.Kind, f.H, want, x.BatchCounter,
+					map[bool]string{true: "is completed in this step", false: "is not completed in this step"}[completedNow])
+			}
+		}
+	}
 	for id, y := range s.Ctxs {
 		x, inPre := ps.Ctxs[id]
 		switch {
